@@ -69,6 +69,7 @@ else:
 SECTION_TAG = "@section"
 MAX_PAGES_RANGE = 1000  # <pages from=.. to=..> transcludes at most this many pages
 MAX_PARSE_DEPTH = 40  # nested parse_txt calls made by tag extensions (<ref>, <poem>, <gallery>, ...)
+MAX_NESTED_WORK = 5000  # sum of the nesting depths of the parse_txt calls made from inside a nested parse
 
 
 def get_recursive_tag_parser(tagname, blocknode=False):
@@ -1299,8 +1300,17 @@ def parse_txt(txt, xopts=None, **kwargs):
     if not txt:
         return []
     depth = xopts.parse_depth or 0
-    if depth >= MAX_PARSE_DEPTH:
-        # e.g. a template that contains <ref>{{itself}}</ref>: stop re-parsing, keep the text
+    nested = xopts.nested_parses
+    if nested is None:
+        # a shared counter: it survives the copies of xopts made for <pages>
+        nested = xopts.nested_parses = [0]
+    if depth >= 2:
+        # the tokens of a parse at depth d are walked again by each of the d enclosing parses
+        nested[0] += depth
+    if depth >= MAX_PARSE_DEPTH or nested[0] > MAX_NESTED_WORK:
+        # e.g. a template that contains <ref>{{itself}}</ref>: stop re-parsing, keep the text.
+        # With two such tags the number of nested parses doubles per level, so the depth
+        # bound alone leaves 2**40 of them: their total is bounded as well.
         return [Token(type=Token.t_text, text=uniquifier.replace_uniq(txt))]
     xopts.parse_depth = depth + 1
     try:
